@@ -163,8 +163,13 @@ class Epoch:
             if act['f']:
                 # the run of computation f raises: identified by the object that is that computation in this slot
                 ids = [i for i, d in sl['objd'].items() if d == act['f']]
-                gen.CTRL['raise'] = {'objs': ids}
-                gen.CTRL['raise_base'] = bool(self.opts.get('interrupt'))
+                # how the run fails: an exception, an interrupt (BaseException) or a result of the wrong type
+                mode = self.opts.get('failmode') or ('interrupt' if self.opts.get('interrupt') else 'raise')
+                if mode == 'mistyped':
+                    gen.CTRL['bad'] = {json.dumps({'objs': ids}): 'mistyped'}
+                else:
+                    gen.CTRL['raise'] = {'objs': ids}
+                    gen.CTRL['raise_base'] = mode == 'interrupt'
             try:
                 v = t.value
                 try:
@@ -176,9 +181,15 @@ class Epoch:
                         raise
             except (gen.InjectedFailure, gen.InjectedInterrupt):
                 out['err'] = 'injected'
+            except ValueError as e:
+                if act['f'] and gen.CTRL.get('bad') and 'Invalid result data type' in str(e):
+                    out['err'] = 'injected'
+                else:
+                    raise
             finally:
                 gen.CTRL['raise'] = None
                 gen.CTRL['raise_base'] = False
+                gen.CTRL['bad'] = {}
             return out
         if name == 'Force':
             ch = sl['chains'][act['m'] - 1]
@@ -387,6 +398,19 @@ def _runinfo_check(self, act, exp, real_runs):
         except Exception as ex:  # noqa
             mm.append(('runinfo', f'run info of {label} unreadable: {type(ex).__name__}: {ex}'))
             continue
+        # the same record through the API, from every task object standing for this computation (Task.run_info)
+        for sl in self.slots.values():
+            for ch in sl['chains']:
+                for t in set(ch.tasks.values()):
+                    if sl['objd'].get(id(t)) == d:
+                        try:
+                            api = t.run_info
+                        except Exception as ex:  # noqa
+                            api = f'<{type(ex).__name__}: {ex}>'
+                        if api != info:
+                            mm.append(('runinfo', f'Task.run_info of {label} (object of {t.fullname}) returns the record of '
+                                                  f"run {[x.get('run') for x in (api.get('log') or [])] if isinstance(api, dict) else api}"
+                                                  f", the stored record is of run {[x.get('run') for x in (info.get('log') or [])]}"))
         want_log = [{'rec': 0, 'run': e['seq']}, {'rec': 1, 'run': e['seq']}]
         if info.get('log') != want_log:
             mm.append(('runinfo', f"run info of {label} has records {info.get('log')}, the run that produced the stored "
